@@ -193,6 +193,7 @@ func runProp(w *World, id string) (res *PropResult) {
 			}
 		}()
 		m.Run(c)
+		hookRound2(c, id)
 	}()
 	c.finish()
 	res.Obs = c.Obs
